@@ -1,5 +1,5 @@
 """C07 - tables are insertion-ordered maps keyed by value."""
-from common import *
+from cardsem import *
 
 INV = ["DistinctKeys", "SetGet", "MissingIsNil", "AppendRule", "PopRule", "Frame"]
 
@@ -30,6 +30,24 @@ def main(tier, seed):
     validate_traces(run, "TableSpecTrace.tla", dict(KeySet="<- KeysSmall", ValSet="<- ValsSmall", NTabs="2", MaxLen="1000000"),
                     ["Inv"], files, "table-trace", timeout=1200)
     run.sample(dict(direction="impl->spec", records=first_records(files[0], 3)))
+    # 4. script level: the table cards and sharing by reference (variables, fields, captured variables, parameters, globals),
+    #    judged by the CardSem reference machine, whose tables live in a heap and are referred to by identity
+    import probes
+    d2 = workdir("C07-scripts")
+    names = sorted(probes.C07_IDIOMS)
+    out = run_programs([probes.C07_IDIOMS[n] for n in names], "idiom", os.path.join(d2, "idioms.ndjson"))
+    recs = [json.loads(l) for l in open(out)]
+    with open(out, "w") as f:
+        for n, r in zip(names, recs):
+            r["profile"] = "idiom:" + n
+            f.write(json.dumps(r) + "\n")
+    sfiles = [out]
+    f2 = os.path.join(d2, "tables.ndjson")
+    drive_programs("tables", seed + 23, 150 if not thorough else 1500, f2)
+    sfiles += split_file(f2, 8, d2, "tables")
+    note_program_stats(run, sfiles)
+    mism, stats = validate_programs(run, sfiles, "C07-scripts", nproc=12, timeout=2400)
+    report_mismatches(run, mism)
     run.assumptions += ["real keys NaN / +-0 and table-valued keys are not generated; row index out of range is not generated",
                         "every use of a string key creates a fresh string object, so lookups succeed only by content"]
     return run.finish("model_checking",
